@@ -96,6 +96,18 @@ def gen_layer_ops(rng, present, nops, uni_weight, incoherent, opts, unis):
             if name in present:
                 unis[name] = list(rec["unicodes"])
             continue
+        if opts.get("lookup_pre") and rng.random() < opts["lookup_pre"]:
+            q = rng.random()
+            if q < 0.4:
+                ops.append(["rev", rng.choice(CODES)])
+            elif q < 0.7:
+                ops.append(["fwd", rng.choice(NAMES)])
+            else:
+                ops.append(["pseudo", rng.choice(PSEUDO_PROBES)])
+            continue
+        if opts.get("save_pre") and rng.random() < opts["save_pre"]:
+            ops.append(["save"])
+            continue
         if r < 0.09:
             ops.append(["get", name])
         elif r < 0.20:
@@ -211,8 +223,11 @@ def cached_then_edited(rng, disk):
     comps = [(n, rec) for n, rec in disk if rec["comps"]]
     if not comps:
         return []
+    names = set(n for n, _ in disk)
+    # rather a composite whose base glyph is in the font
+    comps = [(n, rec) for n, rec in comps if any(b in names for b in rec["comps"])] or comps
     n, rec = rng.choice(comps)
-    base = rng.choice(rec["comps"])
+    base = rng.choice([b for b in rec["comps"] if b in names] or rec["comps"])
     cur = dict((a, b) for a, b in disk).get(base)
     kinds = [k for k in COHERENT_KINDS if cur is None or k != cur["kind"]]
     newkind = rng.choice(kinds)
@@ -538,7 +553,7 @@ class Impl(object):
     def key_of(self, layer):
         return layer.name if self.multi else ""
 
-    def snapshot(self, status, layer=None):
+    def snapshot(self, status, layer=None, via_font=False):
         if layer is None:
             layer = self.font.layers.defaultLayer
         keys = [Atom("set")] + sorted(layer.keys())
@@ -553,7 +568,8 @@ class Impl(object):
         outl = [Atom("set")] + sorted(set(layer.glyphsWithOutlines))
         self.last_outlines = outl[1:]
         if self.key_of(layer) in self.touched:
-            ud = layer.unicodeData
+            # an operation that went through the Font API is followed by a look at font.unicodeData
+            ud = self.font.unicodeData if via_font else layer.unicodeData
             uni = [Atom("set")] + [[c, [Atom("set")] + list(names)] for c, names in ud.items()]
         else:
             uni = Atom("none")
@@ -577,10 +593,8 @@ class Impl(object):
             layer = font.layers[inner[1]]
             font.layers.defaultLayer = layer
             assert font.layers.defaultLayer is layer
-            if self.key_of(layer) in self.touched:
-                # font.unicodeData is the new default layer's
-                assert font.unicodeData is layer.unicodeData
-            return self.snapshot(Atom("ok"), layer)
+            # what font.unicodeData shows from now on is the new default layer's map
+            return self.snapshot(Atom("ok"), layer, via_font=True)
         if k == "newLayer":
             layer = font.newLayer(inner[1])
             self.keep.append(layer)
@@ -693,7 +707,7 @@ class Impl(object):
             elif k == "touchUni":
                 self.touched.add(self.key_of(layer))
                 ud = font.unicodeData if via_font else layer.unicodeData
-                assert ud is layer.unicodeData
+                self.keep.append(ud)
             elif k in ("fwd", "pseudo"):
                 self.touched.add(self.key_of(layer))
                 ud = font.unicodeData if via_font else layer.unicodeData
@@ -714,7 +728,7 @@ class Impl(object):
                 raise ValueError(op)
         except KeyError:
             status = [Atom("err"), Atom("KeyError")]
-        return self.snapshot(status, layer)
+        return self.snapshot(status, layer, via_font=via_font)
 
 
 # ---------------------------------------------------------------------------------------
